@@ -38,6 +38,22 @@ elif op == "bond-type":
             bad.append(f"bond token {tok!r} is not a fixed point")
     except BaseException as ex:
         bad.append(f"bond token {tok!r} rejected: {type(ex).__name__}")
+elif op == "mol2-after-foreign-read":
+    import numpy as np
+    for mt, ct in (("SMALL", "NO_CHARGES"), ("BIOPOLYMER", "NO_CHARGES"), ("SMALL", "GASTEIGER")):
+        src = (f"@<TRIPOS>MOLECULE\nforeign\n2 1 0 0 0\n{mt}\n{ct}\n\n@<TRIPOS>ATOM\n1 C1 0.0000 0.0000 0.0000 C.3 1 UNL 0.0000\n"
+               "2 O1 1.2000 0.0000 0.0000 O.3 1 UNL 0.0000\n@<TRIPOS>BOND\n1 1 2 1\n")
+        m = ml.Molecule.loads_mol2(src)
+        m.atomic_charges = np.array([0.25, -0.25])
+        t1 = m.dumps_mol2()
+        try:
+            r = ml.Molecule.loads_mol2(t1)
+            if not np.allclose(r.atomic_charges, [0.25, -0.25], atol=1e-3):
+                bad.append(f"a molecule read from a {mt}/{ct} file and given charges [0.25, -0.25] reads back with charges {r.atomic_charges.tolist()}")
+            if r.dumps_mol2() != t1:
+                bad.append(f"text written for a molecule that came from a {mt}/{ct} file is not a fixed point")
+        except BaseException as ex:
+            bad.append(f"molli cannot read its own text for a molecule that came from a {mt}/{ct} file: {type(ex).__name__}")
 elif op == "mol2-roundtrip":
     m = ml.Molecule(name="sample")
     els = ["C", "N", "O", "Cl"]
